@@ -22,7 +22,22 @@ pub fn programs13() -> Vec<Prog> {
         p.push(Some("data"), Stmt::Fill(Lit::hex(0x1234)));
         Prog::new(name, p, true)
     };
-    vec![mk("at-x3000", None), mk("at-x0200", Some(0x0200)), mk("at-x7FFE", Some(0x7FFE)), mk("at-xFDF0", Some(0xFDF0))]
+    let mut v = vec![mk("at-x3000", None), mk("at-x0200", Some(0x0200)), mk("at-x7FFE", Some(0x7FFE)), mk("at-xFDF0", Some(0xFDF0))];
+    // a program whose body crosses xFE00, with `.break` on statements beyond user space: the
+    // breakpoint list then holds addresses that no command may touch
+    let mut p = Program::default();
+    p.items.push(Item::Orig(Lit::hex(0xFDFD)));
+    p.push(Some("first"), Stmt::Add(1, 1, Src2::Imm(Lit::dec(1))));
+    p.items.push(Item::Break);
+    p.push(Some("second"), Stmt::Add(2, 2, Src2::Imm(Lit::dec(2))));
+    p.push(Some("end"), Stmt::Named(0x25, "halt"));
+    p.items.push(Item::Break);
+    p.push(Some("data"), Stmt::Fill(Lit::hex(0x1234)));
+    p.items.push(Item::Break);
+    p.push(None, Stmt::Fill(Lit::hex(0x5678)));
+    p.items.push(Item::Break);
+    v.push(Prog::new("crossing-xFE00", p, true));
+    v
 }
 
 /// Pre-histories: the initial state, after two instructions (PC moved, memory stored), with a
@@ -78,8 +93,25 @@ pub fn workload(tier: Tier, progs: &[Prog]) -> Vec<Work> {
             a += stride;
         }
     }
+    // A2: the program crossing xFE00: every address around the boundary and every predefined
+    // breakpoint address, all four commands, from the initial state
+    if progs.len() > 4 {
+        for a in (0xFDF8u32..=0xFE08).chain([0xFFFF, 0x0000]) {
+            let addr = a as u16;
+            for c in [Cmd::MoveMem(Loc::Abs(addr), 0xA5A5), Cmd::Goto(Loc::Abs(addr)), Cmd::BreakAdd(Loc::Abs(addr)), Cmd::BreakRemove(Loc::Abs(addr))] {
+                w.push(Work { prog: 4, pre: 0, action: Action::of(c), space: "A2/crossing-xFE00" });
+            }
+        }
+        for l in ["first", "second", "end", "data"] {
+            for o in [0i32, 1, 2, 3, -1] {
+                for c in [Cmd::BreakRemove(Loc::Label(l.to_string(), o)), Cmd::BreakAdd(Loc::Label(l.to_string(), o)), Cmd::Goto(Loc::Label(l.to_string(), o))] {
+                    w.push(Work { prog: 4, pre: 0, action: Action::of(c), space: "A2/crossing-xFE00" });
+                }
+            }
+        }
+    }
     // B: label +/- offset and ^offset at the boundaries, from every pre-history (different PCs)
-    for (pi, p) in progs.iter().enumerate() {
+    for (pi, p) in progs.iter().enumerate().take(4) {
         let orig = p.image.origin() as i32;
         let mut offs = offsets();
         // offsets that land exactly on origin-1, origin, xFDFF, xFE00 from the labels / PCs
@@ -125,7 +157,7 @@ pub fn workload(tier: Tier, progs: &[Prog]) -> Vec<Work> {
         }
     }
     // D: inspection commands never change anything
-    for pi in 0..progs.len() {
+    for pi in 0..4 {
         for pre in 0..3 {
             for text in ["print r0", "print r7", "print ^", "print ^-1", "print x0000", "print xFFFF", "print first", "print data+1", "print data-32768", "registers", "assembly", "assembly x0000", "assembly xFFFF", "assembly second", "assembly ^1", "break list", "echo hello", "help"] {
                 w.push(Work { prog: pi, pre, action: Action::spelled(text, Cmd::Registers), space: "D/inspection" });
